@@ -334,12 +334,9 @@ theorem buildChart_sound (c0 c : Chart) (sts : List (StateDef × Option Name)) (
     simp only [Except.ok.injEq] at h
     subst h
     have s1 : c1.TreeSound ∧ c1.TransOK := by
-      refine foldl_bind_inv
-        (fun (c : Chart) (p : StateDef × Option Name) => match c.addState p.1 p.2 with
-          | (.ok _, c') => (.ok c' : Except IOErr Chart)
-          | (.error _, _) => .error .statechart)
-        (fun c => c.TreeSound ∧ c.TransOK) ?_ sts c0 c1 h0 h1
+      refine foldl_bind_inv addStateStep (fun c => c.TreeSound ∧ c.TransOK) ?_ sts c0 c1 h0 h1
       intro b a b' hb hf
+      unfold addStateStep at hf
       split at hf
       · next u c' heq =>
         simp only [Except.ok.injEq] at hf
@@ -350,12 +347,9 @@ theorem buildChart_sound (c0 c : Chart) (sts : List (StateDef × Option Name)) (
         exact ⟨Chart.addState_sound b a.1 a.2 hb.1 hok, Chart.addState_transOK b a.1 a.2 hb.2 hok⟩
       · exact absurd hf (by simp)
     have s2 : c2.TreeSound ∧ c2.TransOK := by
-      refine foldl_bind_inv
-        (fun (c : Chart) (t : Trans) => match c.addTransition { t with id := c.transitions.length } with
-          | (.ok _, c') => (.ok c' : Except IOErr Chart)
-          | (.error _, _) => .error .statechart)
-        (fun c => c.TreeSound ∧ c.TransOK) ?_ ts c1 c2 s1 h2
+      refine foldl_bind_inv addTransStep (fun c => c.TreeSound ∧ c.TransOK) ?_ ts c1 c2 s1 h2
       intro b a b' hb hf
+      unfold addTransStep at hf
       split at hf
       · next u c' heq =>
         simp only [Except.ok.injEq] at hf
